@@ -73,7 +73,7 @@ Proof. vm_compute. split; reflexivity. Qed.
 (* ------------------------------------------------------------------------------------------------------
    Added in build session 4 (statements re-stated from the proof files by harness tooling; each is closed by
    exact). *)
-From SplipyModel Require Import Proofs.ObjEval Model.ConstPar Proofs.SplitCompose Proofs.SectionEndToEnd Transfer.ParamObj Transfer.ParamOps Transfer.ParamOps2 Model.EdgeLoop Proofs.EdgeLoopProofs Proofs.EdgeLoopBridge.
+From SplipyModel Require Import Proofs.ObjEval Model.ConstPar Proofs.SplitCompose Proofs.SectionEndToEnd Transfer.ParamObj Transfer.ParamOps Transfer.ParamOps2 Model.EdgeLoop Proofs.EdgeLoopProofs Proofs.EdgeLoopBridge Model.CoonsLib Proofs.CoonsLibProofs Model.Thicken Proofs.ThickenProofs.
 Open Scope R_scope.
 Theorem C15_pinned_eval :
   forall (tol : R) (o : obj R),
@@ -688,4 +688,517 @@ Theorem C15_unit_square_witness :
           (forall v : R, obj_eval tol S [1; v] = obj_eval tol right [v])).
 Proof. exact @unit_square_witness. Qed.
 Print Assumptions C15_unit_square_witness.
+
+Theorem C15_ruled_refined_row :
+  forall (k : list R) (p : nat) (side : bool) (t : R) (mu : nat) (a b : R),
+         sorted (kn k) ->
+         (2 <= p)%nat ->
+         (0 < length k - p)%nat ->
+         (p <= mu <= length k - p)%nat ->
+         in_span side (kn k (mu - 1)) (kn k mu) t ->
+         sumf (fun c : nat => ((1 - greville k p c) * a + greville k p c * b) * nth c (ref_row side k p 0 0 t) 0) 0
+           (length k - p) = (1 - t) * a + t * b.
+Proof. exact @ruled_refined_row. Qed.
+Print Assumptions C15_ruled_refined_row.
+
+Theorem C15_coons_lib_net_eq :
+  forall (ncomp n m : nat) (g h : list R) (B T L Rr : list (list R)),
+         (0 < n)%nat ->
+         (0 < m)%nat ->
+         Forall (fun v : list R => length v = ncomp) B ->
+         Forall (fun v : list R => length v = ncomp) T ->
+         Forall (fun v : list R => length v = ncomp) L ->
+         Forall (fun v : list R => length v = ncomp) Rr ->
+         length B = n ->
+         length T = n ->
+         length L = m ->
+         length Rr = m ->
+         coons_lib_net n m g h B T L Rr =
+         coons_net ncomp n m (fun j : nat => nth j g 0) (fun i : nat => nth i h 0) B T L Rr.
+Proof. exact @coons_lib_net_eq. Qed.
+Print Assumptions C15_coons_lib_net_eq.
+
+Theorem C15_coons_lib_bottom :
+  forall (ncomp n m : nat) (g h : list R) (B T L Rr : list (list R)),
+         (0 < n)%nat ->
+         (0 < m)%nat ->
+         Forall (fun v : list R => length v = ncomp) B ->
+         Forall (fun v : list R => length v = ncomp) T ->
+         Forall (fun v : list R => length v = ncomp) L ->
+         Forall (fun v : list R => length v = ncomp) Rr ->
+         length B = n ->
+         length T = n ->
+         length L = m ->
+         length Rr = m ->
+         nth 0 g 0 = 0 ->
+         nth 0 L [] = nth 0 B [] ->
+         nth 0 Rr [] = nth (n - 1) B [] ->
+         forall i : nat, (i < n)%nat -> nth (i * m) (coons_lib_net n m g h B T L Rr) [] = nth i B [].
+Proof. exact @coons_lib_bottom. Qed.
+Print Assumptions C15_coons_lib_bottom.
+
+Theorem C15_coons_lib_top :
+  forall (ncomp n m : nat) (g h : list R) (B T L Rr : list (list R)),
+         (0 < n)%nat ->
+         (0 < m)%nat ->
+         Forall (fun v : list R => length v = ncomp) B ->
+         Forall (fun v : list R => length v = ncomp) T ->
+         Forall (fun v : list R => length v = ncomp) L ->
+         Forall (fun v : list R => length v = ncomp) Rr ->
+         length B = n ->
+         length T = n ->
+         length L = m ->
+         length Rr = m ->
+         nth (m - 1) g 0 = 1 ->
+         nth (m - 1) L [] = nth 0 T [] ->
+         nth (m - 1) Rr [] = nth (n - 1) T [] ->
+         forall i : nat, (i < n)%nat -> nth (i * m + (m - 1)) (coons_lib_net n m g h B T L Rr) [] = nth i T [].
+Proof. exact @coons_lib_top. Qed.
+Print Assumptions C15_coons_lib_top.
+
+Theorem C15_coons_lib_left :
+  forall (ncomp n m : nat) (g h : list R) (B T L Rr : list (list R)),
+         (0 < n)%nat ->
+         (0 < m)%nat ->
+         Forall (fun v : list R => length v = ncomp) B ->
+         Forall (fun v : list R => length v = ncomp) T ->
+         Forall (fun v : list R => length v = ncomp) L ->
+         Forall (fun v : list R => length v = ncomp) Rr ->
+         length B = n ->
+         length T = n ->
+         length L = m ->
+         length Rr = m ->
+         nth 0 h 0 = 0 -> forall j : nat, (j < m)%nat -> nth j (coons_lib_net n m g h B T L Rr) [] = nth j L [].
+Proof. exact @coons_lib_left. Qed.
+Print Assumptions C15_coons_lib_left.
+
+Theorem C15_coons_lib_right :
+  forall (ncomp n m : nat) (g h : list R) (B T L Rr : list (list R)),
+         (0 < n)%nat ->
+         (0 < m)%nat ->
+         Forall (fun v : list R => length v = ncomp) B ->
+         Forall (fun v : list R => length v = ncomp) T ->
+         Forall (fun v : list R => length v = ncomp) L ->
+         Forall (fun v : list R => length v = ncomp) Rr ->
+         length B = n ->
+         length T = n ->
+         length L = m ->
+         length Rr = m ->
+         nth (n - 1) h 0 = 1 ->
+         forall j : nat, (j < m)%nat -> nth ((n - 1) * m + j) (coons_lib_net n m g h B T L Rr) [] = nth j Rr [].
+Proof. exact @coons_lib_right. Qed.
+Print Assumptions C15_coons_lib_right.
+
+Theorem C15_coons_lib_bottom_gap :
+  forall (ncomp n m : nat) (g h : list R) (B T L Rr : list (list R)),
+         (0 < n)%nat ->
+         (0 < m)%nat ->
+         Forall (fun v : list R => length v = ncomp) B ->
+         Forall (fun v : list R => length v = ncomp) T ->
+         Forall (fun v : list R => length v = ncomp) L ->
+         Forall (fun v : list R => length v = ncomp) Rr ->
+         length B = n ->
+         length T = n ->
+         length L = m ->
+         length Rr = m ->
+         nth 0 g 0 = 0 ->
+         forall i c : nat,
+         (i < n)%nat ->
+         (c < ncomp)%nat ->
+         coord c (nth (i * m) (coons_lib_net n m g h B T L Rr) []) =
+         coord c (nth i B []) + (1 - nth i h 0) * (coord c (nth 0 L []) - coord c (nth 0 B [])) +
+         nth i h 0 * (coord c (nth 0 Rr []) - coord c (nth (n - 1) B [])).
+Proof. exact @coons_lib_bottom_gap. Qed.
+Print Assumptions C15_coons_lib_bottom_gap.
+
+Theorem C15_coons_lib_corner_refuted :
+  exists (g h : list R) (B T L Rr : list (list R)),
+           Forall (fun v : list R => length v = 1%nat) B /\
+           Forall (fun v : list R => length v = 1%nat) T /\
+           Forall (fun v : list R => length v = 1%nat) L /\
+           Forall (fun v : list R => length v = 1%nat) Rr /\
+           length B = 2%nat /\
+           length T = 2%nat /\
+           length L = 2%nat /\
+           length Rr = 2%nat /\
+           nth 0 g 0 = 0 /\
+           nth 1 g 0 = 1 /\
+           nth 0 h 0 = 0 /\
+           nth 1 h 0 = 1 /\
+           nth 0 Rr [] = nth 1 B [] /\
+           nth 1 L [] = nth 0 T [] /\
+           nth 1 Rr [] = nth 1 T [] /\
+           nth 0 L [] <> nth 0 B [] /\
+           ~ (forall i : nat, (i < 2)%nat -> nth (i * 2) (coons_lib_net 2 2 g h B T L Rr) [] = nth i B []).
+Proof. exact @coons_lib_corner_refuted. Qed.
+Print Assumptions C15_coons_lib_corner_refuted.
+
+Theorem C15_grev01_ends :
+  forall b : basis R,
+         (2 <= b_order b)%nat ->
+         (b_order b <= length (b_knots b) - b_order b)%nat ->
+         b_per1 b = 0%nat ->
+         clamped_start b ->
+         clamped_end b ->
+         b_start b < b_end b ->
+         exists g : list R, grev01 b = Ok g /\ length g = b_nfun b /\ nth 0 g 0 = 0 /\ nth (b_nfun b - 1) g 0 = 1.
+Proof. exact @grev01_ends. Qed.
+Print Assumptions C15_grev01_ends.
+
+Theorem C15_coons_lib_surface_edges :
+  forall (tol : R) (cb ct cl cr : obj R) (bu bv : basis R) (g h : list R),
+         0 < tol ->
+         wf_obj_R tol cb ->
+         wf_obj_R tol ct ->
+         wf_obj_R tol cl ->
+         wf_obj_R tol cr ->
+         o_bases cb = [bu] ->
+         o_bases ct = [bu] ->
+         o_bases cl = [bv] ->
+         o_bases cr = [bv] ->
+         open_dir bu ->
+         open_dir bv ->
+         same_kind cb ct ->
+         same_kind cb cl ->
+         same_kind cb cr ->
+         nth 0 g 0 = 0 ->
+         nth (b_nfun bv - 1) g 0 = 1 ->
+         nth 0 h 0 = 0 ->
+         nth (b_nfun bu - 1) h 0 = 1 ->
+         hd [] (o_cps cl) = hd [] (o_cps cb) ->
+         hd [] (o_cps cr) = last (o_cps cb) [] ->
+         last (o_cps cl) [] = hd [] (o_cps ct) ->
+         last (o_cps cr) [] = last (o_cps ct) [] ->
+         let S :=
+           {|
+             o_bases := [bu; bv];
+             o_cps := coons_lib_net (b_nfun bu) (b_nfun bv) g h (o_cps cb) (o_cps ct) (o_cps cl) (o_cps cr);
+             o_dim := o_dim cb;
+             o_rat := o_rat cb
+           |} in
+         wf_obj_R tol S /\
+         (forall u : R, obj_eval tol S [u; b_start bv] = obj_eval tol cb [u]) /\
+         (forall u : R, obj_eval tol S [u; b_end bv] = obj_eval tol ct [u]) /\
+         (forall v : R, obj_eval tol S [b_start bu; v] = obj_eval tol cl [v]) /\
+         (forall v : R, obj_eval tol S [b_end bu; v] = obj_eval tol cr [v]).
+Proof. exact @coons_lib_surface_edges. Qed.
+Print Assumptions C15_coons_lib_surface_edges.
+
+Theorem C15_coons_lib_weight :
+  forall (dim n m : nat) (g h : list R) (B T L Rr : list (list R)) (i j : nat),
+         (0 < n)%nat ->
+         (0 < m)%nat ->
+         Forall (fun v : list R => length v = S dim) B ->
+         Forall (fun v : list R => length v = S dim) T ->
+         Forall (fun v : list R => length v = S dim) L ->
+         Forall (fun v : list R => length v = S dim) Rr ->
+         length B = n ->
+         length T = n ->
+         length L = m ->
+         length Rr = m ->
+         (i < n)%nat ->
+         (j < m)%nat ->
+         let w := fun (P : list (list R)) (q : nat) => coord dim (nth q P []) in
+         coord dim (nth (i * m + j) (coons_lib_net n m g h B T L Rr) []) =
+         (1 - nth j g 0) * w B i + nth j g 0 * w T i + ((1 - nth i h 0) * w L j + nth i h 0 * w Rr j) -
+         ((1 - nth i h 0) * (1 - nth j g 0) * w B 0%nat + nth i h 0 * (1 - nth j g 0) * w B (n - 1)%nat +
+          (1 - nth i h 0) * nth j g 0 * w T 0%nat + nth i h 0 * nth j g 0 * w T (n - 1)%nat).
+Proof. exact @coons_lib_weight. Qed.
+Print Assumptions C15_coons_lib_weight.
+
+Theorem C15_coons_rational_negative_weight :
+  let g := [0; 1 / 2; 1] in
+         let B := [[0; 0; 1]; [1 / 4; -1 / 4; 1 / 4]; [2; 0; 1]] in
+         let T := [[0; 2; 1]; [1 / 4; 3 / 4; 1 / 4]; [2; 2; 1]] in
+         let L := [[0; 0; 1]; [-1 / 4; 1 / 4; 1 / 4]; [0; 2; 1]] in
+         let Rr := [[2; 0; 1]; [3 / 4; 1 / 4; 1 / 4]; [2; 2; 1]] in
+         (forall P : list (list R), In P [B; T; L; Rr] -> forall q : nat, (q < 3)%nat -> 0 < coord 2 (nth q P [])) /\
+         nth 0 L [] = nth 0 B [] /\
+         nth 0 Rr [] = nth 2 B [] /\
+         nth 2 L [] = nth 0 T [] /\
+         nth 2 Rr [] = nth 2 T [] /\ coord 2 (nth (1 * 3 + 1) (coons_lib_net 3 3 g g B T L Rr) []) = - (1 / 2).
+Proof. exact @rational_negative_weight. Qed.
+Print Assumptions C15_coons_rational_negative_weight.
+
+Theorem C15_thicken_shape :
+  forall (sqrtR : R -> R) (tol eps : R) (curve : obj R) (dist : list R -> R -> R) (S0 : obj R),
+         thicken_gen sqrtR edge_curves2 tol eps curve dist = Ok S0 ->
+         length (o_cps curve) = b_nfun (hd Loft.dflt_bas (o_bases curve)) ->
+         (0 < b_nfun (hd Loft.dflt_bas (o_bases curve)))%nat ->
+         exists b' : basis R,
+           Reparam.basis_reparam (hd Loft.dflt_bas (o_bases curve)) 0 1 = Ok b' /\
+           o_bases S0 = [b'; linear01] /\
+           o_pardim S0 = 2%nat /\
+           o_dim S0 = 2%nat /\
+           o_rat S0 = false /\
+           length (o_cps S0) = (b_nfun (hd Loft.dflt_bas (o_bases curve)) * 2)%nat /\
+           Forall (fun p : list R => length p = 2%nat) (o_cps S0).
+Proof. exact @thicken_shape. Qed.
+Print Assumptions C15_thicken_shape.
+
+Theorem C15_thicken_shape_wf :
+  forall (sqrtR : R -> R) (tol eps : R) (curve : obj R) (dist : list R -> R -> R) (S : obj R),
+         thicken_gen sqrtR edge_curves2 tol eps curve dist = Ok S ->
+         length (o_cps curve) = b_nfun (hd Loft.dflt_bas (o_bases curve)) ->
+         (0 < b_nfun (hd Loft.dflt_bas (o_bases curve)))%nat ->
+         0 < tol ->
+         wf_basis_R tol (hd Loft.dflt_bas (o_bases curve)) ->
+         o_bases S = [ReparamEndToEnd.rp_basis (hd Loft.dflt_bas (o_bases curve)) 0 1; linear01] /\
+         b_start (ReparamEndToEnd.rp_basis (hd Loft.dflt_bas (o_bases curve)) 0 1) = 0 /\
+         b_end (ReparamEndToEnd.rp_basis (hd Loft.dflt_bas (o_bases curve)) 0 1) = 1 /\
+         b_order (ReparamEndToEnd.rp_basis (hd Loft.dflt_bas (o_bases curve)) 0 1) =
+         b_order (hd Loft.dflt_bas (o_bases curve)) /\
+         b_nfun (ReparamEndToEnd.rp_basis (hd Loft.dflt_bas (o_bases curve)) 0 1) =
+         b_nfun (hd Loft.dflt_bas (o_bases curve)) /\
+         (b_knots (ReparamEndToEnd.rp_basis (hd Loft.dflt_bas (o_bases curve)) 0 1) =
+          b_knots (hd Loft.dflt_bas (o_bases curve)) <->
+          (forall x : R,
+           In x (b_knots (hd Loft.dflt_bas (o_bases curve))) ->
+           ReparamEndToEnd.rp_map (hd Loft.dflt_bas (o_bases curve)) 0 1 x = x)).
+Proof. exact @thicken_shape_wf. Qed.
+Print Assumptions C15_thicken_shape_wf.
+
+Theorem C15_thicken_nets :
+  forall (sqrtR : R -> R) (tol eps : R) (curve : obj R) (dist : list R -> R -> R) (S0 : obj R),
+         thicken_gen sqrtR edge_curves2 tol eps curve dist = Ok S0 ->
+         length (o_cps curve) = b_nfun (hd Loft.dflt_bas (o_bases curve)) ->
+         (0 < b_nfun (hd Loft.dflt_bas (o_bases curve)))%nat ->
+         exists x v nv Rn Ln : list (list R),
+           thk_eval tol curve (Loft.greville_all (hd Loft.dflt_bas (o_bases curve))) = Ok x /\
+           thk_deriv tol curve (Loft.greville_all (hd Loft.dflt_bas (o_bases curve))) = Ok v /\
+           thk_normals sqrtR eps (b_nfun (hd Loft.dflt_bas (o_bases curve))) v = Ok nv /\
+           o_cps S0 = interleave Rn Ln /\
+           LinAlg.mat (b_nfun (hd Loft.dflt_bas (o_bases curve))) 2 Rn /\
+           LinAlg.mat (b_nfun (hd Loft.dflt_bas (o_bases curve))) 2 Ln /\
+           Solve.matmul
+             (Interp.colloc tol (hd Loft.dflt_bas (o_bases curve)) 0
+                (Loft.greville_all (hd Loft.dflt_bas (o_bases curve)))) Rn =
+           thk_pts dist (Loft.greville_all (hd Loft.dflt_bas (o_bases curve)))
+             (b_nfun (hd Loft.dflt_bas (o_bases curve))) x nv thk_right /\
+           Solve.matmul
+             (Interp.colloc tol (hd Loft.dflt_bas (o_bases curve)) 0
+                (Loft.greville_all (hd Loft.dflt_bas (o_bases curve)))) Ln =
+           thk_pts dist (Loft.greville_all (hd Loft.dflt_bas (o_bases curve)))
+             (b_nfun (hd Loft.dflt_bas (o_bases curve))) x nv thk_left /\
+           (exists Ni : list (list R),
+              Solve.matmul Ni
+                (Interp.colloc tol (hd Loft.dflt_bas (o_bases curve)) 0
+                   (Loft.greville_all (hd Loft.dflt_bas (o_bases curve)))) =
+              Interp.ident (b_nfun (hd Loft.dflt_bas (o_bases curve))) /\
+              LinAlg.mat (b_nfun (hd Loft.dflt_bas (o_bases curve))) (b_nfun (hd Loft.dflt_bas (o_bases curve))) Ni /\
+              Rn =
+              Solve.matmul Ni
+                (thk_pts dist (Loft.greville_all (hd Loft.dflt_bas (o_bases curve)))
+                   (b_nfun (hd Loft.dflt_bas (o_bases curve))) x nv thk_right) /\
+              Ln =
+              Solve.matmul Ni
+                (thk_pts dist (Loft.greville_all (hd Loft.dflt_bas (o_bases curve)))
+                   (b_nfun (hd Loft.dflt_bas (o_bases curve))) x nv thk_left)).
+Proof. exact @thicken_nets. Qed.
+Print Assumptions C15_thicken_nets.
+
+Theorem C15_thicken_eval_greville :
+  forall (sqrtR : R -> R) (tol eps : R) (curve : obj R) (dist : list R -> R -> R) (S0 : obj R),
+         thicken_gen sqrtR edge_curves2 tol eps curve dist = Ok S0 ->
+         length (o_cps curve) = b_nfun (hd Loft.dflt_bas (o_bases curve)) ->
+         (0 < b_nfun (hd Loft.dflt_bas (o_bases curve)))%nat ->
+         0 < tol ->
+         2 * tol <= 1 ->
+         wf_basis_R tol (hd Loft.dflt_bas (o_bases curve)) ->
+         (forall i : nat,
+          (i < b_nfun (hd Loft.dflt_bas (o_bases curve)))%nat ->
+          ReparamEndToEnd.knot_clear (b_knots (hd Loft.dflt_bas (o_bases curve)))
+            (Rmax tol (tol / ReparamEndToEnd.rp_al (hd Loft.dflt_bas (o_bases curve)) 0 1))
+            (nth i (Loft.greville_all (hd Loft.dflt_bas (o_bases curve))) 0)) ->
+         (forall i : nat,
+          (i < b_nfun (hd Loft.dflt_bas (o_bases curve)))%nat ->
+          b_per1 (hd Loft.dflt_bas (o_bases curve)) <> 0%nat ->
+          b_start (hd Loft.dflt_bas (o_bases curve)) <=
+          nth i (Loft.greville_all (hd Loft.dflt_bas (o_bases curve))) 0 <= b_end (hd Loft.dflt_bas (o_bases curve))) ->
+         forall (x v nv : list (list R)) (i : nat) (w : R) (p : list R),
+         thk_eval tol curve (Loft.greville_all (hd Loft.dflt_bas (o_bases curve))) = Ok x ->
+         thk_deriv tol curve (Loft.greville_all (hd Loft.dflt_bas (o_bases curve))) = Ok v ->
+         thk_normals sqrtR eps (b_nfun (hd Loft.dflt_bas (o_bases curve))) v = Ok nv ->
+         (i < b_nfun (hd Loft.dflt_bas (o_bases curve)))%nat ->
+         obj_eval tol S0
+           [ReparamEndToEnd.rp_map (hd Loft.dflt_bas (o_bases curve)) 0 1
+              (nth i (Loft.greville_all (hd Loft.dflt_bas (o_bases curve))) 0); w] = Ok p ->
+         let w' := snap1 k01 tol w in
+         let xi := nth i x [] in
+         let ni := nth i nv [] in
+         let d := dist xi (nth i (Loft.greville_all (hd Loft.dflt_bas (o_bases curve))) 0) in
+         0 <= w' <= 1 /\
+         (forall c : nat,
+          (c < 2)%nat -> coord c p = (1 - w') * coord c (thk_right xi ni d) + w' * coord c (thk_left xi ni d)).
+Proof. exact @thicken_eval_greville. Qed.
+Print Assumptions C15_thicken_eval_greville.
+
+Theorem C15_thicken_boundary_v0 :
+  forall (sqrtR : R -> R) (tol eps : R) (curve : obj R) (dist : list R -> R -> R) (S0 : obj R),
+         thicken_gen sqrtR edge_curves2 tol eps curve dist = Ok S0 ->
+         length (o_cps curve) = b_nfun (hd Loft.dflt_bas (o_bases curve)) ->
+         (0 < b_nfun (hd Loft.dflt_bas (o_bases curve)))%nat ->
+         0 < tol ->
+         2 * tol <= 1 ->
+         wf_basis_R tol (hd Loft.dflt_bas (o_bases curve)) ->
+         (forall i : nat,
+          (i < b_nfun (hd Loft.dflt_bas (o_bases curve)))%nat ->
+          ReparamEndToEnd.knot_clear (b_knots (hd Loft.dflt_bas (o_bases curve)))
+            (Rmax tol (tol / ReparamEndToEnd.rp_al (hd Loft.dflt_bas (o_bases curve)) 0 1))
+            (nth i (Loft.greville_all (hd Loft.dflt_bas (o_bases curve))) 0)) ->
+         (forall i : nat,
+          (i < b_nfun (hd Loft.dflt_bas (o_bases curve)))%nat ->
+          b_per1 (hd Loft.dflt_bas (o_bases curve)) <> 0%nat ->
+          b_start (hd Loft.dflt_bas (o_bases curve)) <=
+          nth i (Loft.greville_all (hd Loft.dflt_bas (o_bases curve))) 0 <= b_end (hd Loft.dflt_bas (o_bases curve))) ->
+         forall (x v nv : list (list R)) (i : nat) (p : list R),
+         thk_eval tol curve (Loft.greville_all (hd Loft.dflt_bas (o_bases curve))) = Ok x ->
+         thk_deriv tol curve (Loft.greville_all (hd Loft.dflt_bas (o_bases curve))) = Ok v ->
+         thk_normals sqrtR eps (b_nfun (hd Loft.dflt_bas (o_bases curve))) v = Ok nv ->
+         (i < b_nfun (hd Loft.dflt_bas (o_bases curve)))%nat ->
+         obj_eval tol S0
+           [ReparamEndToEnd.rp_map (hd Loft.dflt_bas (o_bases curve)) 0 1
+              (nth i (Loft.greville_all (hd Loft.dflt_bas (o_bases curve))) 0); 0] = Ok p ->
+         let xi := nth i x [] in
+         let ni := nth i nv [] in
+         let d := dist xi (nth i (Loft.greville_all (hd Loft.dflt_bas (o_bases curve))) 0) in
+         coord 0 p = nth 0 xi 0 - nth 1 ni 0 * d /\ coord 1 p = nth 1 xi 0 + nth 0 ni 0 * d.
+Proof. exact @thicken_boundary_v0. Qed.
+Print Assumptions C15_thicken_boundary_v0.
+
+Theorem C15_thicken_boundary_v1 :
+  forall (sqrtR : R -> R) (tol eps : R) (curve : obj R) (dist : list R -> R -> R) (S0 : obj R),
+         thicken_gen sqrtR edge_curves2 tol eps curve dist = Ok S0 ->
+         length (o_cps curve) = b_nfun (hd Loft.dflt_bas (o_bases curve)) ->
+         (0 < b_nfun (hd Loft.dflt_bas (o_bases curve)))%nat ->
+         0 < tol ->
+         2 * tol <= 1 ->
+         wf_basis_R tol (hd Loft.dflt_bas (o_bases curve)) ->
+         (forall i : nat,
+          (i < b_nfun (hd Loft.dflt_bas (o_bases curve)))%nat ->
+          ReparamEndToEnd.knot_clear (b_knots (hd Loft.dflt_bas (o_bases curve)))
+            (Rmax tol (tol / ReparamEndToEnd.rp_al (hd Loft.dflt_bas (o_bases curve)) 0 1))
+            (nth i (Loft.greville_all (hd Loft.dflt_bas (o_bases curve))) 0)) ->
+         (forall i : nat,
+          (i < b_nfun (hd Loft.dflt_bas (o_bases curve)))%nat ->
+          b_per1 (hd Loft.dflt_bas (o_bases curve)) <> 0%nat ->
+          b_start (hd Loft.dflt_bas (o_bases curve)) <=
+          nth i (Loft.greville_all (hd Loft.dflt_bas (o_bases curve))) 0 <= b_end (hd Loft.dflt_bas (o_bases curve))) ->
+         forall (x v nv : list (list R)) (i : nat) (p : list R),
+         thk_eval tol curve (Loft.greville_all (hd Loft.dflt_bas (o_bases curve))) = Ok x ->
+         thk_deriv tol curve (Loft.greville_all (hd Loft.dflt_bas (o_bases curve))) = Ok v ->
+         thk_normals sqrtR eps (b_nfun (hd Loft.dflt_bas (o_bases curve))) v = Ok nv ->
+         (i < b_nfun (hd Loft.dflt_bas (o_bases curve)))%nat ->
+         obj_eval tol S0
+           [ReparamEndToEnd.rp_map (hd Loft.dflt_bas (o_bases curve)) 0 1
+              (nth i (Loft.greville_all (hd Loft.dflt_bas (o_bases curve))) 0); 1] = Ok p ->
+         let xi := nth i x [] in
+         let ni := nth i nv [] in
+         let d := dist xi (nth i (Loft.greville_all (hd Loft.dflt_bas (o_bases curve))) 0) in
+         coord 0 p = nth 0 xi 0 + nth 1 ni 0 * d /\ coord 1 p = nth 1 xi 0 - nth 0 ni 0 * d.
+Proof. exact @thicken_boundary_v1. Qed.
+Print Assumptions C15_thicken_boundary_v1.
+
+Theorem C15_thicken_midline_greville :
+  forall (sqrtR : R -> R) (tol eps : R) (curve : obj R) (dist : list R -> R -> R) (S0 : obj R),
+         thicken_gen sqrtR edge_curves2 tol eps curve dist = Ok S0 ->
+         length (o_cps curve) = b_nfun (hd Loft.dflt_bas (o_bases curve)) ->
+         (0 < b_nfun (hd Loft.dflt_bas (o_bases curve)))%nat ->
+         0 < tol ->
+         2 * tol <= 1 ->
+         wf_basis_R tol (hd Loft.dflt_bas (o_bases curve)) ->
+         (forall i : nat,
+          (i < b_nfun (hd Loft.dflt_bas (o_bases curve)))%nat ->
+          ReparamEndToEnd.knot_clear (b_knots (hd Loft.dflt_bas (o_bases curve)))
+            (Rmax tol (tol / ReparamEndToEnd.rp_al (hd Loft.dflt_bas (o_bases curve)) 0 1))
+            (nth i (Loft.greville_all (hd Loft.dflt_bas (o_bases curve))) 0)) ->
+         (forall i : nat,
+          (i < b_nfun (hd Loft.dflt_bas (o_bases curve)))%nat ->
+          b_per1 (hd Loft.dflt_bas (o_bases curve)) <> 0%nat ->
+          b_start (hd Loft.dflt_bas (o_bases curve)) <=
+          nth i (Loft.greville_all (hd Loft.dflt_bas (o_bases curve))) 0 <= b_end (hd Loft.dflt_bas (o_bases curve))) ->
+         forall (x v nv : list (list R)) (i : nat) (p : list R),
+         thk_eval tol curve (Loft.greville_all (hd Loft.dflt_bas (o_bases curve))) = Ok x ->
+         thk_deriv tol curve (Loft.greville_all (hd Loft.dflt_bas (o_bases curve))) = Ok v ->
+         thk_normals sqrtR eps (b_nfun (hd Loft.dflt_bas (o_bases curve))) v = Ok nv ->
+         (i < b_nfun (hd Loft.dflt_bas (o_bases curve)))%nat ->
+         obj_eval tol S0
+           [ReparamEndToEnd.rp_map (hd Loft.dflt_bas (o_bases curve)) 0 1
+              (nth i (Loft.greville_all (hd Loft.dflt_bas (o_bases curve))) 0); 1 / 2] = Ok p ->
+         coord 0 p = nth 0 (nth i x []) 0 /\ coord 1 p = nth 1 (nth i x []) 0.
+Proof. exact @thicken_midline_greville. Qed.
+Print Assumptions C15_thicken_midline_greville.
+
+Theorem C15_thicken_midline_net :
+  forall (sqrtR : R -> R) (tol eps : R) (curve : obj R) (dist : list R -> R -> R) (S0 : obj R),
+         thicken_gen sqrtR edge_curves2 tol eps curve dist = Ok S0 ->
+         length (o_cps curve) = b_nfun (hd Loft.dflt_bas (o_bases curve)) ->
+         (0 < b_nfun (hd Loft.dflt_bas (o_bases curve)))%nat ->
+         0 < tol ->
+         wf_basis_R tol (hd Loft.dflt_bas (o_bases curve)) ->
+         (forall i : nat,
+          (i < b_nfun (hd Loft.dflt_bas (o_bases curve)))%nat ->
+          ReparamEndToEnd.knot_clear (b_knots (hd Loft.dflt_bas (o_bases curve)))
+            (Rmax tol (tol / ReparamEndToEnd.rp_al (hd Loft.dflt_bas (o_bases curve)) 0 1))
+            (nth i (Loft.greville_all (hd Loft.dflt_bas (o_bases curve))) 0)) ->
+         (forall i : nat,
+          (i < b_nfun (hd Loft.dflt_bas (o_bases curve)))%nat ->
+          b_per1 (hd Loft.dflt_bas (o_bases curve)) <> 0%nat ->
+          b_start (hd Loft.dflt_bas (o_bases curve)) <=
+          nth i (Loft.greville_all (hd Loft.dflt_bas (o_bases curve))) 0 <= b_end (hd Loft.dflt_bas (o_bases curve))) ->
+         length (o_bases curve) = 1%nat ->
+         o_rat curve = false ->
+         Forall (fun q : list R => length q = 2%nat) (o_cps curve) ->
+         forall i c : nat,
+         (i < b_nfun (hd Loft.dflt_bas (o_bases curve)))%nat ->
+         (c < 2)%nat ->
+         coord c (nth (2 * i) (o_cps S0) []) + coord c (nth (2 * i + 1) (o_cps S0) []) =
+         2 * coord c (nth i (o_cps curve) []).
+Proof. exact @thicken_midline_net. Qed.
+Print Assumptions C15_thicken_midline_net.
+
+Theorem C15_thicken_midline_is_curve :
+  forall (sqrtR : R -> R) (tol eps : R) (curve : obj R) (dist : list R -> R -> R) (S0 : obj R),
+         thicken_gen sqrtR edge_curves2 tol eps curve dist = Ok S0 ->
+         length (o_cps curve) = b_nfun (hd Loft.dflt_bas (o_bases curve)) ->
+         (0 < b_nfun (hd Loft.dflt_bas (o_bases curve)))%nat ->
+         0 < tol ->
+         2 * tol <= 1 ->
+         wf_basis_R tol (hd Loft.dflt_bas (o_bases curve)) ->
+         (forall i : nat,
+          (i < b_nfun (hd Loft.dflt_bas (o_bases curve)))%nat ->
+          ReparamEndToEnd.knot_clear (b_knots (hd Loft.dflt_bas (o_bases curve)))
+            (Rmax tol (tol / ReparamEndToEnd.rp_al (hd Loft.dflt_bas (o_bases curve)) 0 1))
+            (nth i (Loft.greville_all (hd Loft.dflt_bas (o_bases curve))) 0)) ->
+         (forall i : nat,
+          (i < b_nfun (hd Loft.dflt_bas (o_bases curve)))%nat ->
+          b_per1 (hd Loft.dflt_bas (o_bases curve)) <> 0%nat ->
+          b_start (hd Loft.dflt_bas (o_bases curve)) <=
+          nth i (Loft.greville_all (hd Loft.dflt_bas (o_bases curve))) 0 <= b_end (hd Loft.dflt_bas (o_bases curve))) ->
+         length (o_bases curve) = 1%nat ->
+         o_rat curve = false ->
+         Forall (fun q : list R => length q = 2%nat) (o_cps curve) ->
+         forall (curve' : obj R) (u : R) (p q : list R),
+         Reparam.obj_reparam_dir curve 0 0 1 = Ok curve' ->
+         obj_eval tol S0 [u; 1 / 2] = Ok p ->
+         obj_eval tol curve' [u] = Ok q -> forall c : nat, (c < 2)%nat -> coord c p = coord c q.
+Proof. exact @thicken_midline_is_curve. Qed.
+Print Assumptions C15_thicken_midline_is_curve.
+
+Theorem C15_thk_normals_regular :
+  forall (sqrtR : R -> R) (eps : R) (n : nat) (v : list (list R)),
+         length v = n ->
+         (forall i : nat, (i < n)%nat -> ~ thk_len sqrtR (nth i v []) < eps) ->
+         exists nv : list (list R),
+           thk_normals sqrtR eps n v = Ok nv /\
+           length nv = n /\
+           (forall i : nat, (i < n)%nat -> nth i nv [] = map (fun c : R => c / thk_len sqrtR (nth i v [])) (nth i v [])).
+Proof. exact @thk_normals_regular. Qed.
+Print Assumptions C15_thk_normals_regular.
+
+Theorem C15_thk_unit :
+  forall a c : R,
+         0 < sqrt (a * a + c * c) -> let l := sqrt (a * a + c * c) in a / l * (a / l) + c / l * (c / l) = 1.
+Proof. exact @thk_unit. Qed.
+Print Assumptions C15_thk_unit.
 
